@@ -35,7 +35,8 @@ import deep.logging
 from deep.api.tracepoint.eventsnapshot import WATCH_SOURCE_CAPTURE
 from deep.logging import logging
 from deep.api.tracepoint import WatchResult, Variable
-from deep.processor.variable_set_processor import VariableSetProcessor, VariableCacheProvider
+from deep.processor.variable_set_processor import VariableSetProcessor, VariableCacheProvider, \
+    VariableProcessorConfig
 from deep.utils import str2bool
 
 if TYPE_CHECKING:
@@ -69,6 +70,17 @@ class ActionContext(abc.ABC):
         if self.has_triggered():
             self.location_action.record_triggered(self.trigger_context.ts)
 
+    @property
+    def collection_config(self) -> VariableProcessorConfig:
+        """The variable processing config, from the limits configured on the action."""
+        config = VariableProcessorConfig()
+        action_config = self.location_action.config if self.location_action is not None else {}
+        config.max_string_length = action_config.get('MAX_STRING_LENGTH', config.DEFAULT_MAX_STRING_LENGTH)
+        config.max_collection_size = action_config.get('MAX_COLLECTION_SIZE', config.DEFAULT_MAX_COLLECTION_SIZE)
+        config.max_variables = action_config.get('MAX_VARIABLES', config.DEFAULT_MAX_VARIABLES)
+        config.max_var_depth = action_config.get('MAX_VAR_DEPTH', config.DEFAULT_MAX_VAR_DEPTH)
+        return config
+
     def eval_watch(self, watch: str, source: str) -> Tuple[WatchResult, Dict[str, Variable], str]:
         """
         Evaluate an expression in the current frame.
@@ -77,7 +89,7 @@ class ActionContext(abc.ABC):
         :param watch: The watch expression to evaluate.
         :return: Tuple with WatchResult, collected variables, and the log string for the expression
         """
-        var_processor = VariableSetProcessor({}, self.var_cache)
+        var_processor = VariableSetProcessor({}, self.var_cache, self.collection_config)
 
         try:
             result = self.trigger_context.evaluate_expression(watch)
@@ -96,7 +108,7 @@ class ActionContext(abc.ABC):
         :param variable: the value to process
         :return: Tuple with WatchResult, collected variables, and the log string for the expression
         """
-        var_processor = VariableSetProcessor({}, self.var_cache)
+        var_processor = VariableSetProcessor({}, self.var_cache, self.collection_config)
         variable_id, log_str = var_processor.process_variable(name, variable)
 
         return WatchResult(WATCH_SOURCE_CAPTURE, name, variable_id), var_processor.var_lookup, log_str
